@@ -76,7 +76,23 @@ class C26(Check):
         c = {"gain": pick(U32, 0, 2 ** 32 - 1), "target": pick(U32, 0, 2 ** 32 - 1), "acc": pick(U32, 0, 2 ** 32 - 1), "vmax": vmax,
              "pos": pick(S32, -2 ** 31, 2 ** 31 - 1), "prev": prev, "low": rng.random() < 0.3, "high": rng.random() < 0.3,
              "set_enable": rng.choice([0, 1]), "noise": rng.randrange(256)}
-        if rng.random() < 0.5:
+        r = rng.random()
+        if r < 0.12:
+            # a desired velocity at the ends of the signed 64-bit range: sums with the acceleration limit must not be formed on it
+            g = rng.choice([2 ** 31 - 1, 2 ** 31, 2 ** 32 - 1, 2 ** 32 - 2, rng.randint(2 ** 30, 2 ** 32 - 1)])
+            slack = rng.choice([0, 0, 1, 50, rng.randint(0, 2 ** 33)])
+            if rng.random() < 0.75:
+                diff = min((2 ** 63 - 1 - slack) // g, 2 ** 32 - 1 + 2 ** 31)
+            else:
+                diff = -min((2 ** 63 - slack) // g, 2 ** 31 - 1)
+            lo_pos, hi_pos = max(-2 ** 31, -diff), min(2 ** 31 - 1, 2 ** 32 - 1 - diff)
+            if lo_pos <= hi_pos:
+                c["pos"] = rng.choice([lo_pos, hi_pos, rng.randint(lo_pos, hi_pos)])
+                c["target"] = diff + c["pos"]
+                c["gain"] = g
+                dist = 2 ** 63 - abs(g * diff)
+                c["acc"] = rng.choice([min(2 ** 32 - 1, dist), min(2 ** 32 - 1, dist + 1), max(0, min(2 ** 32 - 1, dist - 1)), 50, 2 ** 31, 2 ** 32 - 1])
+        elif r < 0.55:
             # a desired velocity close to the interesting region
             c["gain"] = rng.choice([1, 2, 3, 10])
             c["target"] = max(0, min(2 ** 32 - 1, c["pos"] + rng.choice([-1, 1]) * rng.choice([0, 1, 10, 1000, 40000, 70000, 10 ** 6]))) if c["pos"] >= -10 ** 6 else 0
@@ -178,12 +194,14 @@ class C26(Check):
     def rule(self):
         return ("gain / target / acceleration limit over boundary values of [0, 2**32) (0, 1, 32767, 32768, 40000, 65535, 65536, 2**31, 2**32-1 ...), small and "
                 "uniform values; position over boundary values of signed 32 bit; velocity limit in [0, 32767]; previous velocity in {-vmax, 0, vmax, random}; "
-                "switch bits with random neighbouring bits; half of the cases with small gains and a target near the position")
+                "switch bits with random neighbouring bits; 43% of the cases with small gains and a target near the position; 12% with a desired velocity "
+                "within the acceleration limit of +-2**63 (large gains times large distances)")
 
     def distribution(self, cases, observed):
-        d = {"accel_limited": 0, "velocity_limited": 0, "switch_blocked": 0, "unlimited": 0, "overflowing_desired": 0}
+        d = {"accel_limited": 0, "velocity_limited": 0, "switch_blocked": 0, "unlimited": 0, "overflowing_desired": 0, "desired_within_acc_of_2**63": 0}
         for c in cases:
             des = c["gain"] * (c["target"] - c["pos"])
+            d["desired_within_acc_of_2**63"] += -2 ** 63 <= des < 2 ** 63 and 2 ** 63 - abs(des) <= c["acc"]
             if not -2 ** 63 <= des < 2 ** 63:
                 d["overflowing_desired"] += 1
                 continue
